@@ -533,6 +533,9 @@ def gen_cancel(seed, k):
         for i, (b, pkg) in enumerate([("t_one", "alpha"), ("t_one", "alpha"), ("t_two", "alpha"), ("t_three", "beta")]):
             n = f"t{i}_" + ("fail" if i in (0, 2) else "pass")
             sc.test(b, n, ["exit:1" if i in (0, 2) else "exit:0"]); tests.append({"bin": b, "pkg": pkg, "name": n, "kind": "ordered", "idx": i})
+        # listed but not selected (ignored), sorting after every selected test: they must be reported skipped although the run is cancelled first
+        for n in ("zz_ignored_1", "zz_ignored_2"):
+            sc.test("t_three", n, ["exit:0"], ignored=True); tests.append({"bin": "t_three", "pkg": "beta", "name": n, "kind": "unselected", "idx": 9})
     else:
         threads = 1; ff = "false"
         for i, (b, pkg) in enumerate([("t_one", "alpha"), ("t_two", "alpha"), ("t_three", "beta")]):
@@ -579,6 +582,19 @@ def mon_cancel(sc, r):
         ran = sorted(p["argv"][1] for p in procs)
         want = sorted(t["name"] for t in m["tests"] if t["idx"] <= 2)
         if ran != want: V("max-fail", f"[{variant}] tests run {ran}; with max-fail = 2 and one thread exactly {want} run (cancellation begins at the 2nd failure)")
+    return out
+
+
+def mon_skipped(sc, r):
+    """C02: every listed test that is not selected is reported skipped exactly once and never spawned — cancelled run or not"""
+    out = []
+    if r.hung: return out
+    for t in sc.meta["tests"]:
+        if t.get("kind") != "unselected": continue
+        key = key_of(t["bin"], t["pkg"], t["name"])
+        n = len(events_for(r, "TestSkipped", key))
+        if n != 1: out.append(mix.viol(sc, r, "skipped", f"[{sc.meta.get('variant')}] listed but unselected test {t['name']} is reported skipped {n} times (must be exactly once, also when the run is cancelled)"))
+        if tprocs(r, t["bin"], t["name"]): out.append(mix.viol(sc, r, "skipped", f"unselected test {t['name']} was spawned"))
     return out
 
 
